@@ -438,9 +438,9 @@ def saveShape (tbl : Table) : SaveShape :=
   match findRow tbl "write_excel_openpyxl" with
   | some r =>
     if !r.bareOpens.isEmpty || !r.closeCalls.isEmpty then .other
-    else if r.points == [("call _append_table_to_openpyxl_worksheet", []), ("call <local>.save", []),
-        ("call <local>.write", ["open(<param>)"]), ("call <local>.save", [])] then .buffered
-    else if r.points == [("call _append_table_to_openpyxl_worksheet", []), ("call <local>.save", [])] then .direct
+    else if r.points == [("call <local>.save", []), ("call <local>.save", []),
+        ("call <local>.write", ["open(<param>)"]), ("call _append_table_to_openpyxl_worksheet", [])] then .buffered
+    else if r.points == [("call <local>.save", []), ("call _append_table_to_openpyxl_worksheet", [])] then .direct
     else .other
   | none => .other
 
